@@ -112,6 +112,14 @@ func NewMultiEndpoint(b *MultiEndpointOptions) (MultiEndpoint, error) {
 		switchingDelay:  b.SwitchingDelay,
 		current:         b.Endpoints[0],
 	}
+	// Negative durations mean "none". Parts of the code tested "> 0", others "== 0": a negative
+	// recovery timeout put an endpoint into recovery and left the switch to an expired timer.
+	if me.recoveryTimeout < 0 {
+		me.recoveryTimeout = 0
+	}
+	if me.switchingDelay < 0 {
+		me.switchingDelay = 0
+	}
 	// Recovery timers scheduled below may fire before the construction is finished.
 	me.Lock()
 	defer me.Unlock()
